@@ -3,6 +3,7 @@ package main
 // C04 — stale, duplicate and concurrent CNI requests are harmless (daemon/daemon.go).
 
 import (
+	"regexp"
 	"fmt"
 	"go/ast"
 	"go/token"
@@ -618,32 +619,32 @@ func c04R5(c *Ctx) {
 					continue
 				}
 				if fv := fieldOf(info, rs.X); fv != nil && fv.Name() == "Resources" && rs.Value != nil {
-					// the released resource is parseNetworkResource(<range value>)
+					// the released resource derives from the range value: some local handed to Release has
+					// the range variable in its backward slice (through the parse helper or its expansion)
 					rv := identObj(info, rs.Value)
-					ast.Inspect(rs.Body, func(k ast.Node) bool {
-						if call, isC := k.(*ast.CallExpr); isC && calleeName(info, call) == "parseNetworkResource" && len(call.Args) == 1 && identObj(info, call.Args[0]) == rv {
-							_, lhs := assignedFromCall(fn, call)
-							if len(lhs) == 1 && lhs[0] != nil {
-								uses := false
-								ast.Inspect(cs.Call, func(j ast.Node) bool {
-									if id, isI := j.(*ast.Ident); isI && info.ObjectOf(id) == lhs[0] {
-										uses = true
-									}
-									return true
-								})
-								if uses {
-									ok = true
-								}
+					if rv != nil {
+						word := regexp.MustCompile(`\b` + regexp.QuoteMeta(rv.Name()) + `\b`)
+						ast.Inspect(cs.Call, func(j ast.Node) bool {
+							id, isI := j.(*ast.Ident)
+							if !isI {
+								return true
 							}
-						}
-						return true
-					})
+							v, isV := info.ObjectOf(id).(*types.Var)
+							if !isV || v.IsField() || v == rv || v.Pos() < rs.Body.Pos() || v.Pos() > rs.Body.End() {
+								return true
+							}
+							if word.MatchString(sliceText(fn, v, 5)) {
+								ok = true
+							}
+							return true
+						})
+					}
 					if !ok {
-						detail = "released value is not parseNetworkResource(<range value>)"
+						detail = "no local handed to Release derives from the range value"
 					}
 				}
 			}
-			c.Check(ok, "C04.R5", name+": released resource comes from the stored record", p.Pos(cs.Call), fn.Key(), "for _, r := range <record>.Resources { res := parseNetworkResource(r); eniMgr.Release(…res…) }", detail)
+			c.Check(ok, "C04.R5", name+": released resource comes from the stored record", p.Pos(cs.Call), fn.Key(), "for _, r := range <record>.Resources { res := <derived from r>; eniMgr.Release(…res…) }", detail)
 		}
 	}
 	c.Floor("C04.R5", "eniMgr.Release calls in ReleaseIP / gcPods", 2, n)
